@@ -91,16 +91,15 @@ func TestVerifC17Acl(t *testing.T) {
 		var good []netip.Prefix
 		var cidrs []string
 		cnt := 1 + r.Intn(5)
+		shape := r.Intn(12)
+		if shape == 0 {
+			cnt = 0 // empty configured list: the open default applies
+		}
 		for i := 0; i < cnt; i++ {
-			if r.Intn(6) == 0 {
-				cidrs = append(cidrs, []string{"bogus", "10.0.0.0/40", "1"}[r.Intn(3)])
+			if shape == 1 || shape == 2 || r.Intn(6) == 0 { // shapes 1,2: every entry malformed
+				cidrs = append(cidrs, []string{"bogus", "10.0.0.0/40", "1", "192.168.1.0.0/24", "::/129"}[r.Intn(5)])
 				continue
 			}
-			pf := vRandPrefix(r)
-			good = append(good, pf)
-			cidrs = append(cidrs, pf.String())
-		}
-		if len(good) == 0 { // an all-malformed list is handled like any other; keep at least one good entry half the time
 			pf := vRandPrefix(r)
 			good = append(good, pf)
 			cidrs = append(cidrs, pf.String())
@@ -110,7 +109,10 @@ func TestVerifC17Acl(t *testing.T) {
 		a := New(cfg)
 		// source: inside / boundary / outside / mapped / nil
 		var src netip.Addr
-		pf := good[r.Intn(len(good))]
+		pf := vRandPrefix(r)
+		if len(good) > 0 {
+			pf = good[r.Intn(len(good))]
+		}
 		switch r.Intn(5) {
 		case 0:
 			src = pf.Masked().Addr()
@@ -163,10 +165,14 @@ func TestVerifC17Acl(t *testing.T) {
 		}
 		if internal {
 			k = "acl-internal"
+		} else if len(cidrs) == 0 {
+			k = "acl-empty-config-" + k
+		} else if len(good) == 0 {
+			k = "acl-all-malformed-" + k
 		}
 		b, _ := json.Marshal(map[string]any{
 			"k":          k,
-			"coq":        fmt.Sprintf("CaseAcl [%s] %v %s %d", strings.Join(pcoq, "; "), internal, srcCoq, outcome),
+			"coq":        fmt.Sprintf("CaseAcl %d [%s] %v %s %d", len(cidrs), strings.Join(pcoq, "; "), internal, srcCoq, outcome),
 			"nontrivial": true,
 			"desc":       map[string]any{"accesslist": cidrs, "src": fmt.Sprint(ip), "internal": internal, "next_calls": stub.calls, "written": w.Written()},
 		})
